@@ -1033,8 +1033,8 @@ class PGPMessage(Armorable, PGPObject):
                 yield ops
 
             yield self._message
-            if self._mdc is not None:  # pragma: no cover
-                yield self._mdc
+            # the modification detection code of a decrypted message belongs to the container that was opened, not to the message
+            # (RFC 4880 5.14, 11.3): it is not written out again
 
             for sig in self._signatures:
                 yield sig
